@@ -99,4 +99,7 @@ def run(ctx):
     if len(gb) < 90:
         rep.anchor_missing('G10.a', 'generated protobuf merge bodies in the corpus harness (found %d)' % len(gb))
     audit.audit_generated(rep, 'G10.a', sorted(gb, key=lambda b: b.id), audited, lambda b: b.key.split('::')[-1])
+    if ctx['tier'] == 'thorough':
+        from vpcheck import run_witness
+        run_witness(rep, 'W10')
     return rep
